@@ -550,7 +550,7 @@ func c17HTTPExtra(ev *vlib.Evidence, idx int) {
 
 func TestC17(t *testing.T) {
 	ev := vlib.NewEvidence("C17", "exploration",
-		"message sequences (requests, results, errors; ids of several JSON types; 0 B .. 200 kB; unicode, escapes, nesting; sizes around the 4 kB websocket buffer) written through each codec and read back through transports that deliver the same bytes as 1-byte reads, 1..7-byte pieces, random pieces, everything coalesced, or pieces with pauses: IOCodec over an in-memory byte stream, (bin) the built pool binary: POST bodies with and without Content-Length and in small pieces, and 48-96 requests pipelined on one WebSocket with replies of several kB; HTTP server/client over chunked loopback TCP (also request bodies without Content-Length and concurrent callers on one client service), gorilla and gobwas client<->server over loopback TCP with the chunking conn installed below the websocket layer (both directions); plus 2..16 concurrent writers on IOCodec/TCP and gorilla with integrity and per-writer order checked; non-trivial = more than one message in the sequence; distinct = (codec, chunk mode, sequence)")
+		"message sequences (requests, results, errors; ids of several JSON types; 0 B .. 200 kB; unicode, escapes, nesting; sizes around the 4 kB websocket buffer) written through each codec and read back through transports that deliver the same bytes as 1-byte reads, 1..7-byte pieces, random pieces, everything coalesced, or pieces with pauses: IOCodec over an in-memory byte stream, (bin) the built pool binary: POST bodies with and without Content-Length and in small pieces, and 48-96 requests pipelined on one WebSocket with replies of several kB; HTTP server/client over chunked loopback TCP (also request bodies without Content-Length and concurrent callers on one client service), gorilla and gobwas client<->server over loopback TCP with the chunking conn installed below the websocket layer (both directions); plus 2..16 concurrent writers on IOCodec/TCP and gorilla with integrity and per-writer order checked; non-trivial = more than one message in the sequence; distinct = (codec, chunk mode, sequence); (faults) read deadlines passing mid-message, HTTP replies lost after handling")
 	ev.Assume("the concurrent-writer clause is asserted for the codecs the binaries use (stream/TCP, HTTP, gorilla), not for gobwas")
 	parallelCases(vlib.Scale(300, 8000), 8, func(i int) { c17Stream(ev, i) })
 	parallelCases(vlib.Scale(200, 6000), 8, func(i int) { c17ReadDeadlines(ev, i) })
